@@ -196,9 +196,11 @@ def deriveAnswerAudio (remote : Media) (loc : List ACap) : List ACap :=
                              then (match rc.fmtp with | some f => some f | none => lc.fmtp) else lc.fmtp }
     | none => none
 
-/-- `reinvite_answer_audio_capabilities` (answers only; `hasLocal` = a local description exists) -/
-def reinviteAudioCaps (c : Cfg) (remote : List Media) (hasLocal : Bool) (mid : Str) : Option (List ACap) :=
-  if !hasLocal then none else
+/-- `reinvite_answer_audio_capabilities` (answers only). Since the round-2 `fix:` ("create_answer intersects
+the audio codecs with the offer on the first negotiation too") the function no longer reads whether a
+local description exists; `hasLocal` is kept as an (ignored) input so that the driver line format and
+`Legacy.reinviteAudioCaps` stay comparable. -/
+def reinviteAudioCaps (c : Cfg) (remote : List Media) (_hasLocal : Bool) (mid : Str) : Option (List ACap) :=
   let rs := if mid.isEmpty then remote.find? (fun s => s.kind = .audio)
             else remote.find? (fun s => s.kind = .audio && s.mid = mid)
   match rs with
@@ -206,6 +208,10 @@ def reinviteAudioCaps (c : Cfg) (remote : List Media) (hasLocal : Bool) (mid : S
   | some r =>
     let caps := deriveAnswerAudio r c.audioCaps
     if caps.isEmpty then none else some caps
+
+/-- the function before that fix: the first answer (no local description yet) never intersected -/
+def Legacy.reinviteAudioCaps (c : Cfg) (remote : List Media) (hasLocal : Bool) (mid : Str) : Option (List ACap) :=
+  if !hasLocal then none else RtcModel.Answer.reinviteAudioCaps c remote hasLocal mid
 
 /-- `apply_audio_capabilities` -/
 def applyAudioCaps (fa : List Str × List Attr) (caps : List ACap) : List Str × List Attr :=
@@ -465,6 +471,31 @@ def secDirOk (o a : Media) : Bool := dirCompatible o.dir a.dir
 def secSetupOk (o a : Media) : Bool :=
   match setupOf a with | some s => setupCompatible (setupOf o) s | none => true
 
+/-- the offerer's `a=setup` for a section: media level, else session level (RFC 8866: a session-level
+attribute applies to every section that does not override it) -/
+def sessionSetup (sess : List Attr) : Option Str := (sess.find? (fun a => a.key = "setup".toList)).bind (·.value)
+def offeredSetup (sess : List Attr) (o : Media) : Option Str :=
+  match setupOf o with | some v => some v | none => sessionSetup sess
+def secSetupOkS (sess : List Attr) (o a : Media) : Bool :=
+  match setupOf a with | some s => setupCompatible (offeredSetup sess o) s | none => true
+
+/-- `(payload type, codec name, clock)` of every `a=rtpmap` -/
+def bindings (m : Media) : List (Str × Str × Str) :=
+  (attrVals m.attrs "rtpmap").filterMap fun v =>
+    match splitOnce ' ' v with
+    | none => none
+    | some (pt, rest) =>
+      match splitOn '/' (trim rest) with
+      | n :: c :: _ => some (pt, n, c)
+      | [n] => some (pt, n, [])
+      | [] => none
+
+/-- reported separately (NOT a conjunct of `validAnswer`, the property speaks of payload type numbers only):
+an offered payload type that the answer uses is bound to the codec the offer bound it to -/
+def secBindOk (o a : Media) : Bool :=
+  (bindings a).all fun x => !o.formats.contains x.1 ||
+    (bindings o).all fun y => y.1 != x.1 || (eqIgnoreAsciiCase y.2.1 x.2.1 && y.2.2 = x.2.2)
+
 def secValid (o a : Media) : Bool :=
   secAligned o a && secPtsOk o a && secRtxOk o a && secExtOk o a && secMuxOk o a && secDirOk o a && secSetupOk o a
 
@@ -483,6 +514,7 @@ def zipAll (f : Media → Media → Bool) : List Media → List Media → Bool
 
 /-- **ValidAnswer** -/
 def validAnswer (offer : Desc) (a : Answer) : Bool :=
-  zipAll secValid offer.media a.sections && bundleOk offer.session.attrs a
+  zipAll secValid offer.media a.sections && bundleOk offer.session.attrs a &&
+    zipAll (secSetupOkS offer.session.attrs) offer.media a.sections
 
 end RtcModel.Answer
